@@ -22,6 +22,19 @@ CLAIMED = {
     note="As C04. The oracle (direction table, payload kind, lets_through) is written from the statement, not from the code.",
     technique="contract-based deductive verification: VCs generated from the real AST by symbolic execution with loop invariants, discharged by z3 (E-matching), counter-models replayed natively",
     design="4 C04/C05"),
+ "C09": dict(
+    category="proof",
+    text="Deductive: SwitchVector.apply_rule is verified against its contract for a vector of any size and a symbolic rule (loop invariant in "
+         "defining form; the Off branch's list comprehension through the filter-length lemma); every operation of the statement - direct assignment, "
+         "bool_value, set_value, a client write to one switch, a client write naming any number of switches (loop invariant over the message's "
+         "children), selected_value and selected_values - is executed symbolically from the real ASTs on a vector in an arbitrary state satisfying "
+         "the rule invariant and proved to re-establish it (at-most-one-On; OneOfMany keeps an On switch; AnyOfMany changes only named switches; "
+         "turning On leaves On), and the same clauses are asserted at every serialisation point (Vector.to_set_message call) for the published state. "
+         "Invariant preservation from an arbitrary state gives every history, with no bound on switches or history length.",
+    note="Trusted: PyVC + encoding; filter-length engine lemma; event handlers do not touch the vector (reset_* bypass the rule by design); "
+         "send_message/to_set_message abstracted at the serialisation point; initial configuration satisfies the rule, element names/keys distinct.",
+    technique="contract-based deductive verification: VCs generated from the real AST by symbolic execution with loop invariants, discharged by z3 (E-matching), counter-models replayed natively",
+    design="4 C09"),
 }
 
 NOT_YET = "check not built yet (work in progress)"
